@@ -39,4 +39,11 @@ def run(ctx):
     cov["rule"] += (" Flavours split/splitdag: directed schedules (split votes up to the coin round); a history is non-trivial when after some "
                     "action a later round was completely decided while an earlier one was not; oracle: every event that obtains a round-received "
                     "i has all rounds between its round and i decided at that moment, none of them qualifying, and all famous witnesses of i see it.")
-    return dict(findings=findings[:10], coverage=cov, corr_diffs=diffs[:10])
+    # at most three findings per class, the classes of the known batching finding last: they must not crowd out anything else
+    per, kept = {}, []
+    for f in findings:
+        per[f["cls"]] = per.get(f["cls"], 0) + 1
+        if per[f["cls"]] <= 3:
+            kept.append(f)
+    kept.sort(key=lambda f: f["cls"].startswith("batching"))
+    return dict(findings=kept[:15], coverage=cov, corr_diffs=diffs[:10])
